@@ -76,10 +76,15 @@ class Model:
 
         logger.debug("step, model time: %4d %s", step, self.timer.time)
 
+        # Remove dead particles before the forcing is sampled, so that the
+        # per-particle forcing arrays stay aligned with the state
+        # (not in the dense layout, where particles are addressed by position)
+        if getattr(self.output, "layout", None) == "sparse":
+            self.state.compactify()
+
         self.release.update()
         self.force.update()
 
-        # self.state.compactify()
         if step >= 0:
             self.output.update()
 
